@@ -111,7 +111,7 @@ def body_blur(ctx, h, w, size):
 
 # -- (c) -------------------------------------------------------------------
 
-def _grid_dataset(conv, shape, holes):
+def _grid_dataset(conv, shape, holes, fortran=False):
     from emsarray.conventions.grid import CFGrid1D, CFGrid2D
     from emsarray.conventions.shoc import ShocSimple, ShocStandard
     ny, nx = shape
@@ -140,13 +140,18 @@ def _grid_dataset(conv, shape, holes):
             node_y[j, i] = numpy.nan
         fx = 100.5 + ii[:-1, :-1]
         fy = 10.5 + jj[:-1, :-1]
+        if fortran:
+            # the same values held in column-major buffers (arrays that came from Fortran / MATLAB tools, or a transpose)
+            node_x, node_y, fx, fy = (numpy.asfortranarray(a) for a in (node_x, node_y, fx, fy))
         ds = builders.shoc_standard(ny, nx, node_x=node_x, node_y=node_y, face_x=fx, face_y=fy)
         return ds, ShocStandard(ds)
     raise ValueError(conv)
 
 
-def body_clip_grid(ctx, conv, shape, holes, buffer):
-    ds, convention = _grid_dataset(conv, shape, holes)
+def body_clip_grid(ctx, conv, shape, holes, buffer, fortran=False):
+    ds, convention = _grid_dataset(conv, shape, holes, fortran)
+    from harness import geomref
+    geomref.check(ctx, ds, convention, kind=conv)
     ny, nx = shape
     polygons = convention.polygons            # concrete coordinates: real shapely
     has_poly = [p is not None for p in polygons]
@@ -358,6 +363,9 @@ def cases(tier):
             yield Case(f'clipgrid:{conv}:{shape[0]}x{shape[1]}:holes{hs}:buf{buffer}', body_clip_grid,
                        dict(conv=conv, shape=shape, holes=holes, buffer=buffer),
                        split=(32 if shape[0] * shape[1] >= 9 else 0), max_paths=10000)
+    for buffer in (0, 1):
+        yield Case(f'clipgrid:shoc_standard:2x3:holesnone:buf{buffer}:column-major', body_clip_grid,
+                   dict(conv='shoc_standard', shape=(2, 3), holes=(), buffer=buffer, fortran=True), max_paths=10000)
     meshes = ['tqp', 'fan', 'strip5', 'qqqtt'] if q else ['tq', 'tqp', 'qqq', 'fan', 'strip5', 'block', 'qqqtt']
     for mesh in meshes:
         for variant in ('noedge', 'edges', 'edges1', 'edgesT', 'fill0', 'fillneg'):
